@@ -246,7 +246,8 @@ VPow(e) == FirstBad("C18.powf",
   {i \in 1..Len(e.s) : LET r == e.s[i] IN PowInScope(r[1], r[2]) /\ ~PowOk(r[1], r[2], r[3], PowTol(e.b, r[2]))})
 \* ev = "exp": s = list of <<x_fx, x_me, r_me>>
 ExpTol(b) == IF SubSeq(b, 1, 4) = "fast" THEN ExpTolFast ELSE TwoUlpRel
-VExp(e) == FirstBad("C18.expf", {i \in 1..Len(e.s) : LET r == e.s[i] IN ~ExpOk(r[1], r[2], r[3], ExpTol(e.b), IsFast(e.b))})
+VExp(e) == IF \E i \in 1..Len(e.s) : ~WireConsistent(e.s[i][1], e.s[i][2]) THEN <<"TOOL.wire-encodings-disagree">>
+           ELSE FirstBad("C18.expf", {i \in 1..Len(e.s) : LET r == e.s[i] IN ~ExpOk(r[1], r[2], r[3], ExpTol(e.b), IsFast(e.b))})
 \* ev = "mathtot": special values and random bit patterns through one helper; panics caught, exp2 hook summarised
 VMathTot(e) ==
   IF e.panics # 0 THEN <<"C18.total-panic", e.fn, e.first_panic>>
